@@ -36,7 +36,10 @@ pub fn shared_brotli_decode_c(
         }
     }
 
-    let mut sink = vec![0u8; max_uncompressed_length];
+    // The limit comes from the (untrusted) patch header and can be as large as 4 GiB, so the output
+    // buffer is grown on demand up to the limit instead of being allocated up front.
+    const INITIAL_SINK_LEN: usize = 64 * 1024;
+    let mut sink = vec![0u8; max_uncompressed_length.min(INITIAL_SINK_LEN)];
 
     let mut next_in = encoded.as_ptr();
     let mut available_in = encoded.len();
@@ -70,9 +73,21 @@ pub fn shared_brotli_decode_c(
                 break;
             }
             BrotliDecoderResult_BROTLI_DECODER_RESULT_NEEDS_MORE_OUTPUT if available_out == 0 => {
-                // Needs more output space, but none is available.
-                error = Some(DecodeError::MaxSizeExceeded);
-                break;
+                let written = sink.len();
+                if written >= max_uncompressed_length {
+                    // Needs more output space, but the limit has been reached.
+                    error = Some(DecodeError::MaxSizeExceeded);
+                    break;
+                }
+                // The buffer is full: grow it (never beyond the limit) and continue right after
+                // the bytes produced so far.
+                let new_len = written
+                    .saturating_mul(2)
+                    .max(INITIAL_SINK_LEN)
+                    .min(max_uncompressed_length);
+                sink.resize(new_len, 0);
+                next_out = unsafe { sink.as_mut_ptr().add(written) };
+                available_out = new_len - written;
             }
             _ => continue,
         }
